@@ -1,5 +1,7 @@
 ---------------------------- MODULE MC_Executor ----------------------------
 EXTENDS Executor, Json
 MCOuts == {"ok", "e1", "panic"}
+\* transition tour: every transition of the (small) model, printed with the level of its source state
+TourDump == PrintT(<<"EDGE", TLCGet("level"), ToJson([f |-> view, t |-> view', cfg |-> [x |-> 0], ev |-> ev'])>>)
 GenPrint == PrintT(<<"GEN", TLCGet("level"), ToJson([cfg |-> [x |-> 0], ev |-> ev])>>)
 =============================================================================
